@@ -52,6 +52,7 @@ class Gen:
             k = self.r.randint(4, len(allf))
             features = set(self.r.sample(allf, k))
         self.feat = set(features)
+        if 'fluids' in self.feat: self.feat.discard('exceptions')     # recorded finding C01 witness:fluid-catch-then-toplevel-try
         self.funcs = {}       # name -> (param types, ret type)
         self.top = []         # rendered-order top-level items (AST)
         self.globals = {}     # name -> type
@@ -327,13 +328,34 @@ class Gen:
             gname = self.fresh('g')
             main.append(('cdecl', gname, self.expr(MI, scope, 1)))
             self.csteps = []
+            # the same scenario inside one function, where the closure values are known to the optimiser (inlined at -Q3,
+            # the assignment then goes through an environment two levels up)
+            self.crun = self.fresh('crun')
+            for _ in range(r.randint(2, 3)):
+                main.append(('crun', ('lit', MI, r.randint(0, 50)), ('lit', MI, r.randint(1, 9)), ('lit', MI, r.randint(10, 20))))
             for _ in range(r.randint(2, 3)):
                 f = self.fresh('st'); main.append(('cstep', f, gname, ('lit', MI, r.randint(1, 12)))); self.csteps.append(f)
         if 'taggedunion' in self.feat:
             un = self.fresh('w'); self.unis[un] = 2; self.tags.add('union'); self.tags.add('taggedunion')
             main.append(('unidecl', un, self.utag(un, MI), self.expr(MI, scope, 2)) if r.random() < 0.6 else ('unidecl', un, 'nm', self.expr(STR, scope, 1))); scope[un] = 'UNI'
+        nfix = len(main)
         for _ in range(self.size):
             main.append(self.mainstmt(scope, 2))
+        if 'fluids' in self.feat:
+            # opt-in: fluid (dynamically bound) variable rebound by a catching function and by a throwing callee below it
+            self.tags.add('fluids')
+            self.fluid = {'k0': r.randint(1, 9), 'k1': r.randint(100, 199), 'k2': r.randint(10, 49), 't': r.randint(0, 4)}
+            for _ in range(r.randint(3, 5)):
+                pos = r.randint(nfix, len(main))
+                main.insert(pos, ('fcall', ('lit', MI, r.randint(0, 8))))
+        if 'taggedunion' in self.feat:
+            # observe the tagged union directly after its declaration and after a few assignments placed among the statements
+            wn = [u for u, sh in self.unis.items() if sh == 2][0]
+            main.insert(nfix, ('uobs', wn))
+            for _ in range(r.randint(2, 4)):
+                pos = r.randint(nfix + 1, len(main))
+                T = r.choice([MI, MI, STR])
+                main[pos:pos] = [('setu', wn, self.utag(wn, T), self.expr(T, scope, 2) if T == MI else self.expr(STR, scope, 1)), ('uobs', wn)]
         if 'exceptions' in self.feat and self.thr and r.random() < 0.25:
             t = r.choice(sorted(self.thr)); main.append(('out', MI, ('call', t, [('lit', MI, r.randint(0, 9))], MI)))   # may end by an uncaught exception
             main.append(('out', STR, ('lit', STR, 'after')))
@@ -545,6 +567,12 @@ class Render:
             a = '%stry {\n%s\n%s} catch E in {\n%s\tE has ZqExc => {\n%s\n%s\t};\n%s\tnever\n%s}' % (p, self.ss(st[1], ind + 1), p, p, self.ss(st[2], ind + 2), p, p, p)
             if st[3]: a += ' finally {\n%s\n%s}' % (self.ss(st[3], ind + 1), p)
             return a + ';'
+        if k == 'fcall': return '%spM(zqfcatch(%s)); pM(zqfshow());' % (p, self.e(st[1], True))
+        if k == 'uobs':
+            w = st[1]
+            return ('%spB((%s case lo)); pB((%s case hi)); pB((%s case nm));\n' % (p, w, w, w) +
+                    '%spM((if (%s case hi) then (%s.hi) else 0)); pM((if (%s case lo) then (%s.lo) else 0)); pS((if (%s case nm) then (%s.nm) else ""));' % (p, w, w, w, w, w, w))
+        if k == 'crun': return '%spM(%s(%s, %s, %s));' % (p, self.g.crun, self.e(st[1], True), self.e(st[2], True), self.e(st[3], True))
         if k == 'cdecl': return '%s%s: MI -> (() -> MI) := %s(%s);' % (p, st[1], self.g.counter_fn, self.e(st[2], True))
         if k == 'cstep': return '%s%s: () -> MI := %s(%s);' % (p, st[1], st[2], self.e(st[3], True))
         if k == 'ccall': return '%spM(%s());' % (p, st[1])
@@ -579,7 +607,7 @@ class Render:
             o.append('ZqDomB: ZqCat with { mkB: MI -> % } == add { Rep == MI; import from Rep; mkB(n: MI): % == per n; val(x: %): MI == rep x + ' + self.lit(c['kb']) + '; twice(x: %): MI == ' + self.lit(c['mb']) + ' * rep x }')
             o.append('ZqBox(T: ZqCat): with { box: T -> %; get: % -> MI } == add { Rep == T; import from Rep; box(t: T): % == per t; get(b: %): MI == ' + ('(rep b + 1)' if self.box_plus else 'twice(rep b)') + ' + ' + self.lit(c['kg']) + ' }')
             o.append('import from ZqDomA, ZqDomB, ZqBox ZqDomA, ZqBox ZqDomB;')
-        if 'exceptions' in g.feat:
+        if 'exceptions' in g.feat or 'fluids' in g.feat:
             o.append('define ZqExc: Category == with;\nZqE1: ZqExc == add;\nZqE2: ZqExc == add;')
         for it in g.top:
             _, name, params, ret, body, fin, rec = it
@@ -594,8 +622,17 @@ class Render:
             o.append('%s(x: MI): MI == x + %s;\n%s(s: String): MI == (#s) * 2;' % (on, self.lit(k), on))
         for tn, (lim, exc, add) in sorted(g.thr.items()):
             o.append('%s(n: MI): MI == { if n > %s then throw %s; n + %s }' % (tn, self.lit(lim), exc, self.lit(add)))
+        if getattr(g, 'fluid', None):
+            f = g.fluid
+            o.append('fluid zqfl: MI := %d;' % f['k0'])
+            o.append('zqfshow(): MI == { fluid zqfl: MI; zqfl }')
+            o.append('zqfthrow(n: MI): MI == { fluid zqfl := %d + n; pM(zqfshow()); if n > %d then throw ZqE1; n + zqfshow() }' % (f['k1'], f['t']))
+            o.append('zqfmid(k: MI): MI == 1 + zqfthrow k;')
+            o.append('zqfcatch(k: MI): MI == {\n\tfluid zqfl := %d + k;\n\tr: MI := 0;\n\ttry {\n\t\tr := zqfmid k;\n\t} catch E in {\n\t\tE has ZqExc => { r := -1 };\n\t\tnever\n\t};\n\tr + zqfshow()\n}' % f['k2'])
         if getattr(g, 'counter_fn', None):
             o.append('%s(start: MI): MI -> (() -> MI) == {\n\tn := start;\n\t(k: MI): (() -> MI) +-> {\n\t\tkk := k;\n\t\t(): MI +-> { free n; n := n + kk; n }\n\t}\n}' % g.counter_fn)
+        if getattr(g, 'crun', None):
+            o.append('%s(a: MI, k1: MI, k2: MI): MI == {\n\tg := %s(a);\n\tf := g(k1);\n\tf();\n\th := g(k2);\n\th();\n\tr1: MI := f();\n\tr2: MI := h();\n\tr1 + 1000 * r2\n}' % (g.crun, g.counter_fn))
         for t in self.extra_top: o.append(t)
         o.append('-- main')
         o.append('\n'.join(self.s(x, 0) for x in g.main))
@@ -766,6 +803,20 @@ class Eval:
                 except _Throw: self.block(st[2], env)
             finally:
                 if st[3]: self.block(st[3], env)
+        elif k == 'fcall':
+            f = self.g.fluid; kk = self.e(st[1], env)
+            outer = self.mi(f['k2'] + kk); inner = self.mi(f['k1'] + kk)
+            self.emit(MI, inner)
+            rr = -1 if kk > f['t'] else self.mi(1 + self.mi(kk + inner))
+            self.emit(MI, self.mi(rr + outer)); self.emit(MI, f['k0'])
+        elif k == 'uobs':
+            tg, v = env[st[1]]
+            for t in ('lo', 'hi', 'nm'): self.emit(BOOL, tg == t)
+            self.emit(MI, v if tg == 'hi' else 0); self.emit(MI, v if tg == 'lo' else 0); self.emit(STR, v if tg == 'nm' else '')
+        elif k == 'crun':
+            a, k1, k2 = self.e(st[1], env), self.e(st[2], env), self.e(st[3], env)
+            n = self.mi(a + k1); n = self.mi(n + k2); n = self.mi(n + k1); r1 = n; n = self.mi(n + k2); r2 = n
+            self.emit(MI, self.mi(r1 + self.mi(1000 * r2)))
         elif k == 'cdecl': env[st[1]] = {'n': self.e(st[2], env)}
         elif k == 'cstep': env[st[1]] = (env[st[2]], self.e(st[3], env))
         elif k == 'ccall':
